@@ -132,6 +132,16 @@ def check(ctx):
     br = [n for n in walk_no_nested(rc_) if isinstance(n, ast.If) and eqv(n.test, "set(self.keys) & set(other.keys)")]
     ok = len(br) == 1 and bool(find("operands = [[k, new.pop(k, v)] for (k, v) in zip(other.keys, other.vals)]", br[0])) and bool(find("new = dict(zip(self.keys, self.vals))", br[0])) and bool(find("operands.extend(([k, v] for (k, v) in new.items()))", br[0])) and any(eqv(r.value, "[other.frame] + list(flatten(operands))") for r in returns(br[0]))
     ctx.ob("ALG.assign-squash.order", rc_, "overlapping keys: other's keys stay in place with the later value substituted, remaining new keys are appended", ok, "" if ok else "the repeated key moves to the end: computed column order differs from the metadata and from pandas")
+    # ---------------- Fused broadcasts EVERY single-partition dependency (the ndim rule of Blockwise is for unfused expressions)
+    fcl = ex_.cls("Fused") if "ex_" in dir() else ctx.model.module("dask/dataframe/dask_expr/_expr.py").cls("Fused")
+    bd = [m_ for m_ in fcl.body if isinstance(m_, ast.FunctionDef) and m_.name == "_broadcast_dep"]
+    ok = len(bd) == 1 and (all(eqv(r.value, "dep.npartitions == 1") for r in returns(bd[0])) and bool(returns(bd[0])))
+    ctx.ob("ALG.fused.broadcast-dep", bd[0] if bd else fcl, "Fused._broadcast_dep(dep) = dep.npartitions == 1", ok, "" if ok else "with the inherited rule a single-partition member whose ndim is not below the group's top expression gets key (name, i) instead of (name, 0): the fused graph cannot be computed")
+    # ---------------- dropna() without subset looks at ALL columns: a projection may not pass below it
+    dsu = (ex_ if "ex_" in dir() else ctx.model.module("dask/dataframe/dask_expr/_expr.py")).func("DropnaFrame._simplify_up")
+    pj = [n for n in walk_no_nested(dsu) if isinstance(n, ast.If) and "isinstance(parent, Projection)" in unparse(n.test)]
+    ok = len(pj) == 1 and eqv(pj[0].test, "isinstance(parent, Projection) and self.subset is not None")
+    ctx.ob("DOM.dropna.projection-needs-subset", dsu, "DropnaFrame lets a Projection pass only when subset is given (the subset columns are then kept as additional columns)", ok, "" if ok else "dropna() without subset depends on every column: projecting first drops different rows than pandas")
 
 
 VARIANTS = [
